@@ -367,7 +367,18 @@ def validate_trace(trace_path, name, module="ConcTrace"):
     shutil.rmtree(d, ignore_errors=True)
     os.makedirs(d, exist_ok=True)
     cfgp = os.path.join(d, "trace.cfg")
-    open(cfgp, "w").write(TRACE_CFG[module])
+    cfg_text = TRACE_CFG[module]
+    if module == "ChainTrace":
+        # the chain has one cell per value lent in an execution (plus the vacant one at the end)
+        most = cur = 0
+        for line in open(trace_path):
+            if '"ev":"reset"' in line or '"ev": "reset"' in line:
+                cur = 0
+            elif '"ev":"push"' in line or '"ev": "push"' in line:
+                cur += 1
+                most = max(most, cur)
+        cfg_text = cfg_text.replace("MaxCells = 16", "MaxCells = %d" % max(16, most + 2))
+    open(cfgp, "w").write(cfg_text)
     env = dict(os.environ); env["TRACE"] = trace_path
     cmd = ["java", "-XX:+UseParallelGC", "-Xss1g", "-Xmx6g", "-cp", TLC_CP, "tlc2.TLC", "-workers", "1", "-metadir", os.path.join(d, "states"),
            "-cleanup", "-noGenerateSpecTE", "-config", cfgp, os.path.join(vf.TLA, module + ".tla")]
@@ -432,7 +443,7 @@ def conc_passes(tier):
     """(build, mode) passes of the scheduler engines.  The thorough tier repeats the exhaustive and the free-running
     pass on unimock built without std (critical-section + spin-lock: the other MutexIsh, an extra per-instance
     `panicked` lock); threads call through clones, so Conc.tla / Chain.tla apply unchanged."""
-    passes = [("std", m) for m in ("dfs", "random", "free")]
+    passes = [("std", m) for m in ("dfs", "random", "free", "long")]
     if tier == "thorough":
         vf.build_harness(nostd=True)
         passes += [("no_std+spin-lock", m) for m in ("dfs", "free")]
@@ -496,10 +507,13 @@ def run_conc(pid, tier, t0, rule, assumptions, plan_key=None):
 
 
 CHAIN_PROGS = {"quick": {"dfs": [[["p"], ["p"]], [["p", "p"], ["p", "p"]], [["p"], ["p"], ["p"]]], "free": [[["p", "p", "p"], ["p", "p", "p"], ["p", "p"], ["p", "p"]]], "free_runs": 300,
+                         "long": [[["p"] * 120], [["p"] * 20] * 2], "long_runs": 1,
                          "mc": [("T2", 2), ("T3", 1)]},
                "thorough": {"dfs": [[["p"], ["p"]], [["p", "p"], ["p", "p"]], [["p"], ["p"], ["p"]], [["p", "p", "p"], ["p", "p", "p"]], [["p", "p"], ["p"], ["p", "p"]]],
                             "random": [[["p", "p", "p"], ["p", "p", "p"], ["p", "p", "p"], ["p", "p"]]], "runs": 3000,
-                            "free": [[["p", "p", "p"]] * 8], "free_runs": 5000, "mc": [("T2", 2), ("T3", 1), ("T3", 2), ("T2", 3)]}}
+                            "free": [[["p", "p", "p"]] * 8], "free_runs": 5000,
+                            "long": [[["p"] * 400], [["p"] * 30] * 8, [["p"] * 100] * 2], "long_runs": 1,     # long chains; 2-8 threads
+                            "mc": [("T2", 2), ("T3", 1), ("T3", 2), ("T2", 3)]}}
 
 
 def run_chain_conc(pid, tier, t0):
@@ -530,8 +544,8 @@ def run_chain_conc(pid, tier, t0):
             continue
         d = os.path.join(vf.WORK, "chain_%s%s" % (mode, "" if build == "std" else "_nostd"))
         os.makedirs(d, exist_ok=True)
-        spec = {"kind": "chain", "mode": mode, "programs": progs, "max_schedules": 60000 if tier == "thorough" else 8000,
-                "runs": plan.get("free_runs" if mode == "free" else "runs", 200), "seed": vf.seed()}
+        spec = {"kind": "chain", "mode": "free" if mode == "long" else mode, "programs": progs, "max_schedules": 60000 if tier == "thorough" else 8000,
+                "runs": plan.get({"free": "free_runs", "long": "long_runs"}.get(mode, "runs"), 200), "seed": vf.seed()}
         json.dump(spec, open(os.path.join(d, "spec.json"), "w"))
         tr = os.path.join(d, "trace.ndjson")
         p = subprocess.run([vh, "conc", os.path.join(d, "spec.json"), tr, os.path.join(d, "summary.json")], cwd=vf.VERIF, stderr=subprocess.DEVNULL, timeout=3000)
